@@ -24,7 +24,16 @@ impl<'de> Deserialize<'de> for RoomMessageEventContent {
 
         let MentionsDeHelper { mentions } = from_raw_json_value(&json)?;
 
-        Ok(Self { msgtype: from_raw_json_value(&json)?, relates_to, mentions })
+        let mut msgtype = from_raw_json_value(&json)?;
+        if let MessageType::_Custom(custom) = &mut msgtype {
+            // These are held by the dedicated fields, keeping them in the custom data as well would
+            // serialize them twice.
+            custom.data.remove("m.relates_to");
+            custom.data.remove("m.new_content");
+            custom.data.remove("m.mentions");
+        }
+
+        Ok(Self { msgtype, relates_to, mentions })
     }
 }
 
@@ -37,7 +46,14 @@ impl<'de> Deserialize<'de> for RoomMessageEventContentWithoutRelation {
 
         let MentionsDeHelper { mentions } = from_raw_json_value(&json)?;
 
-        Ok(Self { msgtype: from_raw_json_value(&json)?, mentions })
+        let mut msgtype = from_raw_json_value(&json)?;
+        if let MessageType::_Custom(custom) = &mut msgtype {
+            // This is held by the dedicated field, keeping it in the custom data as well would
+            // serialize it twice.
+            custom.data.remove("m.mentions");
+        }
+
+        Ok(Self { msgtype, mentions })
     }
 }
 
